@@ -260,6 +260,29 @@ def c17_template(template="{name}-{ts:%Y%m%dT%H}.records", minutes=((22, 10), (2
     return {"violates": bool(bad), "detail": bad}
 
 
+def c17_copy_helper():
+    from flow.record import RecordReader, RecordWriter
+    from flow.record.base import stream
+
+    D = _desc()
+    with tempfile.TemporaryDirectory() as td:
+        try:
+            w = RecordWriter(os.path.join(td, "src.records"))
+            for k in range(3):
+                w.write(D(n=k, s=f"r{k}", _generated=GEN))
+            w.close()
+            src, dst = RecordReader(os.path.join(td, "src.records")), RecordWriter("jsonfile://" + os.path.join(td, "dst.json"))
+            stream(src, dst)
+            dst.close()
+            src.close()
+            with RecordReader("jsonfile://" + os.path.join(td, "dst.json")) as rd:
+                got = [(r.n, r.s) for r in rd]
+        except Exception as e:
+            return {"violates": True, "detail": f"raised {type(e).__name__}: {e}"}
+    want = [(k, f"r{k}") for k in range(3)]
+    return {"violates": got != want, "detail": None if got == want else f"copied {got}, the source holds {want}"}
+
+
 def c17_archiver():
     from flow.record import RecordReader
     from flow.record.stream import RecordArchiver
@@ -364,4 +387,4 @@ def c17_split_raw(n=3, count=1, selector=None):
     bad = out != [f"r{i}" for i in range(n)] or end != "stop"
     return {"violates": bad, "detail": f"{len(parts)} parts concatenated as raw bytes read back as {out}, ended {end}; written r0..r{n - 1}"}
 
-CALLS = {"c17_archiver": c17_archiver, "c17_split_raw": c17_split_raw, "c17_split_target": c17_split_target, "c17_template": c17_template, "c17_history": c17_history, "c17_split": c17_split, "c17_rotate": c17_rotate, "c17_sweep": c17_sweep}
+CALLS = {"c17_copy_helper": c17_copy_helper, "c17_archiver": c17_archiver, "c17_split_raw": c17_split_raw, "c17_split_target": c17_split_target, "c17_template": c17_template, "c17_history": c17_history, "c17_split": c17_split, "c17_rotate": c17_rotate, "c17_sweep": c17_sweep}
